@@ -299,6 +299,11 @@ _UPDATES = [
     ("C14", "text", "with the verdict |out - x/d| <= 1/2 evaluated exactly;", "with the verdict |out - x/d| <= 1/2 evaluated exactly, each probe both inside the sorted alphabet and alone among small values at a moving position;"),
     ("C15", "text", "table-based and exported kernels, and constructors.", "table-based and exported kernels, inverse DFTs of constant DFT vectors (exact ties, top-binade magnitudes), and constructors."),
     ("C18", "text", "under four buffer-alignment patterns", "under four buffer-alignment patterns and two layouts with all operands packed back to back in one block"),
+    ("C01", "text", "squares are also computed with one pointer for both operands,", "squares are also computed with one pointer for both operands, every pattern is also multiplied by the zero polynomial from both sides, sparse limb vectors with zero stride padding go through the svp path,"),
+    ("C03", "text", "(incl. INT64_MIN/MAX)", "(incl. INT64_MIN/MAX and values with equal residues modulo two of the primes)"),
+    ("C04", "text", "measured lane maxima must stay below the certified bounds,", "measured lane maxima must stay below the certified bounds, every real stage function is replayed alone on lanes from a boundary alphabet inside its certified input bound (all pairs meet in a butterfly) and must be its linear map modulo each prime below the certified output bound,"),
+    ("C13", "text", "idft and idft_tmp_a over their own input;", "idft and idft_tmp_a over their own input (also with coefficients of magnitude 2^50);"),
+    ("C17", "text", "(every m from the kernel minimum, signed zeros and 2^+-300 included)", "(every m from the kernel minimum; signed zeros, 2^+-300, subnormal operands and extreme operand combinations included)"),
 ]
 for _cid, _field, _old, _new in _UPDATES:
     if _old not in CHECKS[_cid][_field]:
